@@ -230,7 +230,12 @@ def bytes_rule(ctx: Ctx) -> None:
     ok = len(pows) == 1 and isinstance(pows[0].left, ast.Constant) and pows[0].left.value == 1000 and isinstance(pows[0].right, ast.Subscript)
     ctx.ob(f, pows[0] if pows else f.node, ok, "the unit factor is 1000 ** exponent (decimal SI)" + ("" if ok else f" — found `{unparse(pows[0]) if pows else 'none'}`"), sel="bytes:base")
     # plain-number and bare-B forms have factor 1
-    ones = [n for n in f.own_nodes() if isinstance(n, ast.Assign) and isinstance(n.targets[0], ast.Name) and n.targets[0].id == "unit_factor" and isinstance(n.value, ast.Constant)]
+    # the factor variable = the one assigned `1000 ** …`; its other (constant) assignments
+    fvar = None
+    for n in f.own_nodes():
+        if isinstance(n, ast.Assign) and isinstance(n.targets[0], ast.Name) and pows and any(x is pows[0] for x in ast.walk(n.value)):
+            fvar = n.targets[0].id
+    ones = [n for n in f.own_nodes() if isinstance(n, ast.Assign) and isinstance(n.targets[0], ast.Name) and n.targets[0].id == fvar and isinstance(n.value, ast.Constant)]
     ok = bool(ones) and all(n.value.value == 1 for n in ones)
     ctx.ob(f, ones[0] if ones else f.node, ok, "numeric strings and the bare `B` suffix are taken as bytes (factor 1)", sel="bytes:unit-one")
     # every path to a normal return passes `size >= 0`, non-integral floats raise, unknown strings raise
